@@ -542,7 +542,7 @@ fn gen_words(r: &mut Rng) -> [u64; 2] {
     for s in slots {
         w[s / 64] |= 1 << (s % 64);
     }
-    match r.below(8) {
+    match r.below(14) {
         0 => w[1] |= 1 << 63,
         1 => w[1] |= 1 << 62,
         2 => w[1] |= 3 << 62,
@@ -641,7 +641,7 @@ fn case_pagediff(r: &mut Rng, case: usize, out: &mut Sink) {
     // ---- pack / unpack
     let w = gen_words(r);
     let d = PageDiff::verif_from_words(w);
-    let plen = *r.pick(&[PAGE, PAGE, PAGE, 4032, 4031, 2048, 2049, 32, 0]);
+    let plen = *r.pick(&[PAGE, PAGE, PAGE, PAGE, PAGE, PAGE, PAGE, PAGE, 4032, 4031, 2048, 2049, 32, 0]);
     let page = gen_page(r, plen);
     let op = format!("pdpack {} {} {}", w[0], w[1], blob(&page));
     let packed = catch_unwind(AssertUnwindSafe(|| d.pack_changed_nodes(&page).collect::<Vec<[u8; 32]>>()));
@@ -861,7 +861,7 @@ fn case_recover(r: &mut Rng, case: usize, out: &mut Sink, dir: &str) {
     // ---- malformed variants (rare): buckets out of range
     let bad = r.below(10);
     if bad == 0 {
-        let b = *r.pick(&[n as u64, (mp * PAGE - 1) as u64, (mp * PAGE) as u64, u64::MAX, 1 << 40]);
+        let b = *r.pick(&[n as u64, n as u64 + 1, (mp * PAGE - 1) as u64, (mp * PAGE) as u64, u64::MAX, 1 << 40]);
         entries.push(if r.chance(1, 2) { Entry::Clear(b) } else { Entry::Update { pid: gen_pid(r), diff: [0, 0], nodes: vec![], elided: 0, bucket: b } });
         hypothesis_holds = false;
         out.count("recover_bucket_out_of_range");
@@ -872,10 +872,29 @@ fn case_recover(r: &mut Rng, case: usize, out: &mut Sink, dir: &str) {
         ops.push(Op::Entry(e.clone()));
     }
     ops.push(Op::Finalize);
-    let Some(wal) = real_build(None, &ops) else {
+    let Some(mut wal) = real_build(None, &ops) else {
         out.fail(format!("C03 WalBlobBuilder panicked in a recover case (case {case})"));
         return;
     };
+    // a WAL that fails in the middle of the redo loop (bad tag / reserved bits / cut short): `open` must fail, not panic
+    if bad == 1 {
+        let body: usize = 6 + entries.iter().map(|e| e.size()).sum::<usize>();
+        match r.below(3) {
+            0 => wal[body - 1] = *r.pick(&[0u8, 5, 255]),
+            1 => {
+                let cut = r.range(5, body - 1);
+                for b in wal[cut..].iter_mut() {
+                    *b = 0;
+                }
+            }
+            _ => {
+                let i = r.range(5, body - 1);
+                wal[i] ^= 1 << r.below(8);
+            }
+        }
+        hypothesis_holds = false;
+        out.count("recover_corrupt_wal");
+    }
     out.mark_case(format!("case {case} recover buckets={n} entries={} stale={stale} bad={}", entries.len(), bad == 0));
     // ---- start states: the old table, or the old table with a part of the write-out already done
     let mut start = Tbl { meta: t.meta.clone(), pages: t.pages.clone() };
@@ -891,10 +910,10 @@ fn case_recover(r: &mut Rng, case: usize, out: &mut Sink, dir: &str) {
         }
         out.count("recover_from_partial_writeout");
     }
-    let what = if stale { "stale WAL" } else if bad == 0 { "out-of-range bucket" } else { "matching WAL" };
+    let what = if stale { "stale WAL" } else if bad == 0 { "out-of-range bucket" } else if bad == 1 { "corrupt WAL" } else { "matching WAL" };
     let after = recover_line(out, dir, seqn, &seed, &start, &wal, what);
     let Some(after) = after else {
-        if bad != 0 {
+        if bad > 1 {
             out.fail(format!("C03 recovery of a WAL written by the builder failed (case {case}, {n} buckets, {} entries)", entries.len()));
         }
         return;
@@ -917,7 +936,7 @@ fn case_recover(r: &mut Rng, case: usize, out: &mut Sink, dir: &str) {
         out.count("recover_redo_checked");
     }
     // ---- crash during recovery: recover again from the recovered table (the WAL was not truncated yet)
-    if bad != 0 {
+    if bad > 1 {
         if let Some(again) = recover_line(out, dir, seqn, &seed, &after, &wal, "second recovery") {
             if again.meta != after.meta || again.pages != after.pages {
                 out.fail(format!("C03 redo is not idempotent: recovering twice differs from recovering once (case {case})"));
